@@ -9,7 +9,7 @@ A check that fires on such a change is a false alarm to be fixed in the checker 
 — then it is moved to /verif/seeded).
 """
 import json, os, shutil, subprocess, sys, time
-ENV = dict(os.environ, GOFLAGS="-mod=mod", GOPROXY="off", GOSUMDB="off", GOTOOLCHAIN="local")
+ENV = dict(os.environ, GOFLAGS="-mod=mod -trimpath", GOPROXY="off", GOSUMDB="off", GOTOOLCHAIN="local")
 ENV.pop("GOWORK", None)
 def run(cmd, cwd=None, timeout=1200):
     try:
